@@ -96,6 +96,12 @@ def parse_header(lines):
     return info
 
 
+def lib_failed(err):
+    """does this traceback say that the LIBRARY died or hung on the job's input (the harness process ended abnormally), rather than
+    that the measurement code did?  Then configuration + signal are a failing input."""
+    return "signal harness failed" in err or "signal harness HUNG" in err
+
+
 RUN_TIMEOUT = None          # seconds; set by callers that probe configurations which may not terminate (C09)
 
 
